@@ -1,4 +1,4 @@
-import BreezyVerif.Lemmas.C51Plan
+import BreezyVerif.Lemmas.C51Plan2
 /-!
 C51 — theorems.  All parent maps (any size, with ghosts), all onto / stop
 revisions, all topological orders `topo_sort` may return, any `generate_revid`.
@@ -26,31 +26,62 @@ theorem plan_domain (g : PMap) (gen : Key → Key) (todoS order : List Key) (sto
   have := (planLoop_domain g gen onto order ([], []) (plan, sk) hl).1
   simpa using this
 
-/-- `plan_new_ids`: every entry's new id is `generate_revid` of its old id and
-differs from it (so new ids are distinct and fresh whenever `generate_revid` is
-injective and fresh) -/
-theorem plan_new_ids (g : PMap) (gen : Key → Key) (todoS order : List Key) (stop : Option Key)
-    (onto : Key) (plan : Plan) (hnd : order.Nodup)
-    (hstop : ∀ s, stop = some s → order.getLast? = some s)
-    (h : simplePlan g gen todoS order none stop onto false = .ok plan) :
-    ∀ e ∈ plan, e.new = gen e.old ∧ e.new ≠ e.old := by
-  obtain ⟨sk, hl⟩ := simplePlan_loop hnd hstop h
+/-- `plan_new_ids`: for ANY start / stop and BOTH settings of `skip_full_merged`,
+every entry's new id is `generate_revid` of its old id and differs from it, and
+its old id is a revision of `order` -/
+theorem plan_new_ids (g : PMap) (gen : Key → Key) (todoS order : List Key) (start stop : Option Key)
+    (onto : Key) (skip : Bool) (plan : Plan)
+    (h : simplePlan g gen todoS order start stop onto skip = .ok plan) :
+    ∀ e ∈ plan, e.new = gen e.old ∧ e.new ≠ e.old ∧ e.old ∈ order := by
+  obtain ⟨_, _, i, j, _, _, _, _, sk, hl⟩ := simplePlan_slice h
+  obtain ⟨added, ha, hsub, hadd⟩ := planLoop_adds g gen onto skip _ ([], []) (plan, sk) hl
+  simp only [List.nil_append] at ha
+  subst ha
   intro e he
-  rcases (planLoop_domain g gen onto order ([], []) (plan, sk) hl).2.2 e he with h2 | ⟨h2, h3⟩
-  · cases h2
-  · exact ⟨h2, by rw [h2]; exact h3⟩
+  obtain ⟨h1, h2⟩ := hadd e he
+  exact ⟨h1, by rw [h1]; exact h2,
+    (hsub.trans (sublist_drop_take order i (j + 1 - i))).subset (List.mem_map.mpr ⟨e, he, rfl⟩)⟩
 
-/-- `plan_domain_todo`: if `order` enumerates the present revisions of
-`find_difference(tip, onto)[0]`, the plan rewrites exactly the revisions that
-are in the history of `tip` but not in the history of `onto`. -/
+/-- `plan_ids_distinct`: the old ids of a plan are pairwise distinct and in the
+order of `order`; if `generate_revid` is injective on `order`, the new ids are
+pairwise distinct as well (any start / stop / skip) -/
+theorem plan_ids_distinct (g : PMap) (gen : Key → Key) (todoS order : List Key) (start stop : Option Key)
+    (onto : Key) (skip : Bool) (plan : Plan) (hnd : order.Nodup)
+    (h : simplePlan g gen todoS order start stop onto skip = .ok plan) :
+    (plan.map (·.old)).Sublist order ∧ (plan.map (·.old)).Nodup ∧
+    ((∀ a ∈ order, ∀ b ∈ order, gen a = gen b → a = b) → (plan.map (·.new)).Nodup) := by
+  have hids := plan_new_ids g gen todoS order start stop onto skip plan h
+  obtain ⟨_, _, i, j, _, _, _, _, sk, hl⟩ := simplePlan_slice h
+  obtain ⟨added, ha, hsub, _⟩ := planLoop_adds g gen onto skip _ ([], []) (plan, sk) hl
+  simp only [List.nil_append] at ha
+  subst ha
+  have hs : (plan.map (·.old)).Sublist order := hsub.trans (sublist_drop_take order i (j + 1 - i))
+  have hn : (plan.map (·.old)).Nodup := hs.nodup hnd
+  refine ⟨hs, hn, fun hinj => ?_⟩
+  have : plan.map (·.new) = (plan.map (·.old)).map gen := by
+    rw [List.map_map]
+    apply List.map_congr_left
+    intro e he
+    exact (hids e he).1
+  rw [this]
+  unfold List.Nodup at hn ⊢
+  rw [List.pairwise_map]
+  exact hn.imp_of_mem (fun ha hb hne hab => hne (hinj _ (hs.subset ha) _ (hs.subset hb) hab))
+
+/-- `plan_domain_todo`: if `order` is a topological order of the present revisions of
+`find_difference(tip, onto)[0]` and `stop` is `None` or the tip, the plan
+rewrites exactly the revisions that are in the history of `tip` but not in the
+history of `onto`.  (That the tip is the last revision of `order` is derived —
+`tip_is_last` — not assumed.) -/
 theorem plan_domain_todo (g : PMap) (gen : Key → Key) (todoS order : List Key) (stop : Option Key)
     (tip onto : Key) (plan : Plan) (hnd : order.Nodup)
-    (hstop : ∀ s, stop = some s → order.getLast? = some s)
+    (hstop : stop = none ∨ stop = some tip)
     (hmem : ∀ k, k ∈ order ↔ (k ∈ todoSet g tip onto ∧ present g k = true))
+    (htopo : topoFrom g order = true)
     (h : simplePlan g gen todoS order none stop onto false = .ok plan) (k : Key) :
     k ∈ plan.map (·.old) ↔
       (Reach g [] [tip] k ∧ ¬ Reach g [] [onto] k ∧ ∃ ps, parentsOf g k = some ps) := by
-  rw [plan_domain g gen todoS order stop onto plan hnd hstop h, hmem]
+  rw [plan_domain g gen todoS order stop onto plan hnd (stop_is_last hnd hmem htopo hstop h) h, hmem]
   unfold todoSet
   simp only [List.mem_filter, decide_eq_true_eq, mem_anc, present_iff, and_assoc]
 
@@ -60,74 +91,126 @@ theorem plan_domain_todo (g : PMap) (gen : Key → Key) (todoS order : List Key)
 `start=None`, `stop` = `None` or the tip, and `order` a topological order of the
 present revisions of `find_difference(tip, onto)[0]`: walking the plan in its
 own order, every new parent is the new base `onto`, the new id of a revision
-rewritten earlier, or a ghost (which cannot be rewritten).  In particular no
-entry refers to a skipped (fully merged) merge revision: its children are
-planned onto the parent that stands in for it. -/
+rewritten EARLIER, or a ghost parent of the old revision (which cannot be
+rewritten; an id that merely is absent from the graph — such as the new id of a
+LATER entry — does not qualify).  In particular no entry refers to a skipped
+(fully merged) merge revision: its children are planned onto the parent that
+stands in for it. -/
 theorem plan_parents_closed (g : PMap) (gen : Key → Key) (todoS order : List Key)
     (stop : Option Key) (tip onto : Key) (skip : Bool) (plan : Plan) (hnd : order.Nodup)
-    (hstop : ∀ s, stop = some s → order.getLast? = some s)
+    (hstop : stop = none ∨ stop = some tip)
     (hmem : ∀ k, k ∈ order ↔ (k ∈ todoSet g tip onto ∧ present g k = true))
     (htopo : topoFrom g order = true)
     (h : simplePlan g gen todoS order none stop onto skip = .ok plan) :
     PlanClosed g onto [] plan := by
-  obtain ⟨sk, hl⟩ := simplePlan_loop hnd hstop h
-  exact planLoop_closed g gen tip onto skip order [] ([], []) (plan, sk) (by simpa using hmem) htopo
-    (fun k hk => by cases hk) (fun kv hkv => by cases hkv) trivial hl
+  obtain ⟨sk, hl⟩ := simplePlan_loop hnd (stop_is_last hnd hmem htopo hstop h) h
+  exact planLoop_closed g gen tip onto skip order (plan, sk) hmem htopo hl
+
+/-! ### an explicit start revision -/
+
+/-- `plan_range_domain`: for ANY start / stop (given or `None`), without
+skipping, the plan has exactly one entry per revision of the slice of `order`
+from the start revision to the stop revision (both inclusive), in that order. -/
+theorem plan_range_domain (g : PMap) (gen : Key → Key) (todoS order : List Key) (start stop : Option Key)
+    (onto : Key) (plan : Plan)
+    (h : simplePlan g gen todoS order start stop onto false = .ok plan) :
+    ∃ startK stopK i j, (start = some startK ∨ (start = none ∧ order.head? = some startK)) ∧
+      (stop = some stopK ∨ (stop = none ∧ order.getLast? = some stopK)) ∧
+      indexOf? order startK = some i ∧ indexOf? order stopK = some j ∧
+      plan.map (·.old) = (order.drop i).take (j + 1 - i) := by
+  obtain ⟨stopK, startK, i, j, hs, hst, hi, hj, sk, hl⟩ := simplePlan_slice h
+  refine ⟨startK, stopK, i, j, ?_, hs, hi, hj, ?_⟩
+  · rcases hst with h1 | ⟨h1, h2, _⟩
+    · exact Or.inl h1
+    · exact Or.inr ⟨h1, h2⟩
+  · have := (planLoop_domain g gen onto _ ([], []) (plan, sk) hl).1
+    simpa using this
+
+/-- `plan_range_closed`: for ANY start / stop and BOTH settings of
+`skip_full_merged`, if `order` is a topological order: walking the plan in its
+own order, every new parent is the new base `onto`, the new id of a revision
+rewritten earlier, or a parent of the old revision that lies OUTSIDE the range
+asked for (and is not merged into `onto`) — references to revisions that are not
+rewritten are preserved, nothing inside the range is referred to by its old id. -/
+theorem plan_range_closed (g : PMap) (gen : Key → Key) (todoS order : List Key) (start stop : Option Key)
+    (onto : Key) (skip : Bool) (plan : Plan) (htopo : topoFrom g order = true)
+    (h : simplePlan g gen todoS order start stop onto skip = .ok plan) :
+    ∃ i n, PlanClosedS g onto ((order.drop i).take n) [] plan ∧
+      (plan.map (·.old)).Sublist ((order.drop i).take n) := by
+  obtain ⟨_, _, i, j, _, _, _, _, sk, hl⟩ := simplePlan_slice h
+  refine ⟨i, j + 1 - i, ?_, ?_⟩
+  · exact planLoop_closedS g gen onto skip _ _ [] ([], []) (plan, sk) (by simp) (topoFrom_slice order i _ htopo)
+      (fun k hk => by cases hk) (fun kv hkv => by cases hkv) trivial hl
+  · obtain ⟨added, ha, hsub, _⟩ := planLoop_adds g gen onto skip _ ([], []) (plan, sk) hl
+    simp only [List.nil_append] at ha
+    subst ha
+    exact hsub
 
 /-! ### skipping fully merged merges (the command's default) -/
 
-/-- `plan_skip_domain`: with skipping, the plan still only rewrites revisions of
-`todo`; every revision left out is a merge (at least two parents) that was
-recorded in `skipped` with the single new parent standing in for it -/
-theorem plan_skip_domain (g : PMap) (gen : Key → Key) (onto : Key) (skip : Bool) :
-    ∀ (todo : List Key) (st st' : Plan × Skipped), planLoop g gen onto skip st todo = .ok st' →
-      (∀ k ∈ st'.1.map (·.old), k ∈ st.1.map (·.old) ∨ k ∈ todo) ∧
-      (∀ k ∈ todo, k ∈ st'.1.map (·.old) ∨
-        (k ∈ st'.2.map (·.1) ∧ ∃ p0 p1 rest, parentsOf g k = some (p0 :: p1 :: rest))) := by
-  intro todo
-  induction todo with
-  | nil =>
-    intro st st' h
-    simp only [planLoop] at h
-    cases h
-    exact ⟨fun k hk => Or.inl hk, fun k hk => by cases hk⟩
-  | cons old todo ih =>
-    intro st st' h
-    simp only [planLoop] at h
-    split at h
-    · cases h
-    · rename_i st1 hstep
-      obtain ⟨h1, h2⟩ := ih st1 st' h
-      obtain ⟨hm1, hm2⟩ := planLoop_mono g gen onto skip todo st1 st' h
-      obtain ⟨p0, rest, hps, hc | hc⟩ := planStep_cases hstep
-      · obtain ⟨hp, hr, _, _⟩ := hc
-        subst hp
-        refine ⟨fun k hk => ?_, fun k hk => ?_⟩
-        · rcases h1 k hk with h3 | h3
-          · exact Or.inl h3
-          · exact Or.inr (List.mem_cons_of_mem _ h3)
-        · rcases List.mem_cons.mp hk with h3 | h3
-          · subst h3
-            right
-            refine ⟨hm2 k (by simp), ?_⟩
-            cases rest with
-            | nil => exact absurd rfl hr
-            | cons p1 r => exact ⟨p0, p1, r, hps⟩
-          · exact h2 k h3
-      · obtain ⟨hp, _⟩ := hc
-        subst hp
-        refine ⟨fun k hk => ?_, fun k hk => ?_⟩
-        · rcases h1 k hk with h3 | h3
-          · simp only [List.map_append, List.map_cons, List.map_nil, List.mem_append,
-              List.mem_singleton] at h3
-            rcases h3 with h4 | h4
-            · exact Or.inl h4
-            · exact Or.inr (by simp [h4])
-          · exact Or.inr (List.mem_cons_of_mem _ h3)
-        · rcases List.mem_cons.mp hk with h3 | h3
-          · subst h3
-            exact Or.inl (hm1 k (by simp))
-          · exact h2 k h3
+/-- `plan_skip_exact`: the command's case (`start=None`, `stop` = `None` or the
+tip, `order` a topological order of the branch's own present revisions), BOTH
+settings of `skip_full_merged`.  Take any revision `k` of `order` and let `st1`
+be the loop state after the revisions before it.  Then `k` is LEFT OUT of the
+plan if and only if skipping is on, `k` is a merge (at least two parents) and
+its new parents computed at that point collapse to a single one; in that case
+that single parent — which stands in for `k` in its children — is the new base
+or the new id of an entry already planned (an earlier one).  So a merge with
+two surviving parents is never skipped, and a non-merge never is. -/
+theorem plan_skip_exact (g : PMap) (gen : Key → Key) (todoS order : List Key)
+    (stop : Option Key) (tip onto : Key) (skip : Bool) (plan : Plan) (hnd : order.Nodup)
+    (hstop : stop = none ∨ stop = some tip)
+    (hmem : ∀ k, k ∈ order ↔ (k ∈ todoSet g tip onto ∧ present g k = true))
+    (htopo : topoFrom g order = true)
+    (h : simplePlan g gen todoS order none stop onto skip = .ok plan)
+    (pre post : List Key) (k : Key) (hsplit : order = pre ++ k :: post) :
+    ∃ st1 p0 rest later, planLoop g gen onto skip ([], []) pre = .ok st1 ∧ plan = st1.1 ++ later ∧
+      parentsOf g k = some (p0 :: rest) ∧
+      (k ∉ plan.map (·.old) ↔
+        (skip = true ∧ rest ≠ [] ∧ (newParents g onto st1.1 st1.2 p0 rest).2 = [])) ∧
+      (k ∉ plan.map (·.old) →
+        (newParents g onto st1.1 st1.2 p0 rest).1 = onto ∨
+        ∃ e ∈ st1.1, e.new = (newParents g onto st1.1 st1.2 p0 rest).1) := by
+  obtain ⟨sk, hl⟩ := simplePlan_loop hnd (stop_is_last hnd hmem htopo hstop h) h
+  rw [hsplit] at hl hnd
+  obtain ⟨st1, hpre, hrest⟩ := planLoop_append g gen onto skip pre (k :: post) ([], []) (plan, sk) hl
+  have hkpre : k ∉ pre := fun hm => (List.nodup_append.mp hnd).2.2 k hm k (by simp) rfl
+  have hkpost : k ∉ post := (List.nodup_cons.mp (List.nodup_append.mp hnd).2.1).1
+  obtain ⟨add1, ha1, hsub1, _⟩ := planLoop_adds g gen onto skip pre ([], []) st1 hpre
+  simp only [List.nil_append] at ha1
+  have hk1 : k ∉ st1.1.map (·.old) := fun hm => hkpre (by rw [ha1] at hm; exact hsub1.subset hm)
+  have halias := planLoop_alias g gen onto skip pre ([], []) st1 (fun kv hkv => by cases hkv) hpre
+  simp only [planLoop] at hrest
+  split at hrest
+  · cases hrest
+  · rename_i st2 hstep
+    obtain ⟨add2, ha2, hsub2, _⟩ := planLoop_adds g gen onto skip post st2 (plan, sk) hrest
+    simp only at ha2
+    have hsrc := (newParents_src g onto st1.1 st1.2 · ·)
+    obtain ⟨p0, rest, hps, ⟨hst, hcond⟩ | ⟨hst, _, hcond⟩⟩ := planStep_exact hstep
+    · -- left out
+      subst hst
+      simp only at ha2
+      have hnot : k ∉ plan.map (·.old) := by
+        rw [ha2]
+        simp only [List.map_append, List.mem_append, not_or]
+        exact ⟨hk1, fun hm => hkpost (hsub2.subset hm)⟩
+      refine ⟨st1, p0, rest, add2, hpre, ha2, hps, ⟨fun _ => hcond, fun _ => hnot⟩, fun _ => ?_⟩
+      rcases (hsrc p0 rest).1 with h1 | h1 | ⟨kv, hkv, h1⟩
+      · exact Or.inl h1
+      · exact Or.inr h1
+      · rcases halias kv hkv with h2 | h2
+        · exact Or.inl (h1 ▸ h2)
+        · exact Or.inr (h1 ▸ h2)
+    · -- rewritten
+      subst hst
+      simp only at ha2
+      have hin : k ∈ plan.map (·.old) := by
+        rw [ha2]
+        simp
+      refine ⟨st1, p0, rest, ⟨k, gen k, (newParents g onto st1.1 st1.2 p0 rest).1 ::
+          (newParents g onto st1.1 st1.2 p0 rest).2⟩ :: add2, hpre, by rw [ha2]; simp, hps,
+        ⟨fun hn => absurd hin hn, fun hc => absurd hc hcond⟩, fun hn => absurd hin hn⟩
 
 /-- F12 graph: `1 ← 2 ← 3 (onto)`, `1 ← 4 ← 5 = merge(4, 2) ← 6`;
 `order = [4, 5, 6]` -/
@@ -233,7 +316,15 @@ theorem transpose_excludes_renames_partial (ancestry : List (Key × Option (List
 
 /-! ### non-vacuity -/
 
-example : [4, 5, 6].Nodup ∧ (∀ s, some 6 = some s → [4, 5, 6].getLast? = some s) := by decide
+example : [4, 5, 6].Nodup ∧ (∀ s, some 6 = some s → [4, 5, 6].getLast? = some s) ∧
+    ((some 6 : Option Key) = none ∨ some 6 = some 6) := by decide
+/-- an explicit start revision: the merge `5` keeps its old left parent `4`, which lies outside the range `[5, 6]` -/
+example : (simplePlan f12G (· + 100) [4, 5, 6] [4, 5, 6] (some 5) (some 6) 3 false).toOption =
+    some [⟨5, 105, [3, 4]⟩, ⟨6, 106, [105]⟩] ∧ (4 ∉ ([4, 5, 6].drop 1).take 2) ∧ mergedInto f12G 4 3 = false := by decide
+/-- `plan_skip_exact` on the F12 graph: at `5` (after `[4]`) the new parents collapse to `[104]`: left out, stand-in `104` -/
+example : (planLoop f12G (· + 100) 3 true ([], []) [4]).toOption = some ([⟨4, 104, [3]⟩], []) ∧
+    newParents f12G 3 [⟨4, 104, [3]⟩] [] 4 [2] = (104, []) ∧
+    (∀ a ∈ [4, 5, 6], ∀ b ∈ [4, 5, 6], a + 100 = b + 100 → a = b) := by decide
 example : todoSet f12G 6 3 = [6, 5, 4] ∧ topoFrom f12G [4, 5, 6] = true := by decide
 example : rebaseTodo [104] [⟨4, 104, [3]⟩, ⟨5, 105, [104]⟩] = [5] := by decide
 /-- a plan with two entries, 0–2 parents, revid containing a space -/
